@@ -356,6 +356,18 @@ fn main() {
         }
         explore_zoo(&mut em, &mut cu, &mut rng, &id, zoo_docs, &mut stats);
     }
+    // operator tables in which two rules share one operator text (reduce/reduce resolved by precedence,
+    // every reading of the token takes part in the shift/reduce decision); last, so that the
+    // families above see the same random stream as before
+    for k in 0..(if thorough { 48 } else { 24 }) {
+        let mut grng = Rng::new(seed ^ 0x7719 ^ (k as u64).wrapping_mul(0x9E37));
+        let mut t = random_optable(&mut grng);
+        add_twin(&mut t, k, &mut grng);
+        let name = format!("c03tw{k}");
+        let g = op_grammar(&name, &t);
+        let json = serde_json::to_string(&g).unwrap();
+        explore_token_grammar(&mut em, &mut cu, &mut rng, &name, "op", &format!("op:{name}:{}", t.encode()), &json, Some(&t), budget.min(15000), nrandom, &mut stats);
+    }
     let (cases, accepted) = (em.cases, em.accepted);
     drop(em);
     writeln!(file, "stats grammars={} rejected_by_generator={} no_terminal_map={} zoo={} cfg_attempts={}", stats.grammars, stats.rejected_by_generator, stats.no_terminals, stats.zoo, k).unwrap();
